@@ -23,8 +23,12 @@ pub fn run(case: &Value, em: &mut Emitter) {
     let sep = case["sep"].as_i64().unwrap();
     let base = path_string(&case["base"], abs, sep);
     let target = path_string(&case["target"], abs, sep);
+    let alias = (base.len() + target.len()) % 2 == 0;
     let out = guard(|| {
-        let r = sourcemap::make_relative_path(&base, &target);
+        // when one argument is a textual prefix of the other, both are handed over as slices of ONE buffer
+        let r = if alias && base.starts_with(&target) { sourcemap::make_relative_path(&base, &base[..target.len()]) }
+                else if alias && target.starts_with(&base) { sourcemap::make_relative_path(&target[..base.len()], &target) }
+                else { sourcemap::make_relative_path(&base, &target) };
         let mut comps: Vec<i64> = r.split(|c| c == '/' || c == '\\').map(|c| match c {
             ".." => -1,
             "." => -2,
